@@ -175,7 +175,13 @@ func runC01(c *Ctx) {
 	statusObj := P.FuncObj("overlord/state.(*Task).Status")
 	readyObj := P.FuncObj("overlord/state.Status.Ready")
 	loops := LoopsOver(mw, VRes(0, RecvWhere(ToFn(haltTasks), VParam(mw, 0))))
-	if len(loops) != 1 {
+	if len(loops) == 0 && mustWaitHelperForm(c, mw, haltTasks,
+		Cmp("t.Status()==Undo", VRes(0, RecvWhere(ToFn(statusObj), VParam(mw, 0))), token.EQL, VConstObj(P.Const("overlord/state.UndoStatus"))),
+		func(elem ssa.Value) Atom {
+			return TrueRes("ht.Status().Ready()", true, 0, CallWhere(ToFn(readyObj), 0, VRes(0, RecvWhere(ToFn(statusObj), VIs(elem)))))
+		}, "overlord/state.mustWait#halt-loop", "overlord/state.mustWait#false-after-halt-loop", "for an Undo task mustWait can answer false without having inspected all tasks waiting on it") {
+		// decided in the helper form
+	} else if len(loops) != 1 {
 		c.Undecided("overlord/state.mustWait#halt-loop", mw.Pos(), fmt.Sprintf("expected one loop over t.HaltTasks(), found %d", len(loops)))
 	} else {
 		rl := loops[0]
@@ -643,4 +649,51 @@ func c01FalseOnlyAfterLoop(c *Ctx, fn *ssa.Function, rl *RangeLoop, arm Atom, co
 	if n == 0 {
 		c.Undecided(construct, fn.Pos(), "arm ["+arm.Name+"] not recognised")
 	}
+}
+
+// mustWaitHelperForm decides the loop rules of mustWait when the scan over lister(t) was moved
+// into a predicate of its own (`return !allReady(t.HaltTasks())`): the helper walks its argument
+// in one loop that advances only across elemOK, answers true only after the loop, is called under
+// the arm, and mustWait returns its negation.
+func mustWaitHelperForm(c *Ctx, mw *ssa.Function, lister *types.Func, arm Atom, elemOK func(elem ssa.Value) Atom, loopKey, falseKey, msg string) bool {
+	for _, b := range mw.Blocks {
+		for _, in := range b.Instrs {
+			cc, ok := in.(ssa.CallInstruction)
+			if !ok {
+				continue
+			}
+			h := cc.Common().StaticCallee()
+			if h == nil || h.Pkg != mw.Pkg || len(h.Blocks) == 0 || len(cc.Common().Args) != 1 || !VRes(0, RecvWhere(ToFn(lister), VParam(mw, 0)))(cc.Common().Args[0]) {
+				continue
+			}
+			hl := LoopsOver(h, VParam(h, 0))
+			if len(hl) != 1 {
+				continue
+			}
+			c.touch(h)
+			rl := hl[0]
+			c.LatchGated(loopKey, rl, []Clause{{elemOK(rl.Elem)}})
+			nt := 0
+			for _, lf := range ReturnLeaves(h, 0) {
+				if bv, isC := ConstBool(lf.Val); isC && bv {
+					nt++
+					c.ThroughLoop(fmt.Sprintf("%s-true-only-after-loop#%d", loopKey, nt), rl, lf)
+				} else if !isC {
+					c.Undecided(loopKey+"-helper-verdict", lf.Pos(), "the helper returns a computed value")
+				}
+			}
+			c.Guarded(loopKey+"-arm", mw, cc.(ssa.Instruction), []Clause{{arm}}, nil)
+			okNeg := false
+			for _, lf := range ReturnLeaves(mw, 0) {
+				if u, ok := lf.Val.(*ssa.UnOp); ok && u.Op == token.NOT {
+					if c2, _, isCall := CallResult(u.X); isCall && c2 == cc {
+						okNeg = true
+					}
+				}
+			}
+			c.Check(okNeg, falseKey, cc.Pos(), "mustWait answers !"+h.Name()+"(…) under ["+arm.Name+"]", msg)
+			return true
+		}
+	}
+	return false
 }
